@@ -99,7 +99,7 @@ class Call:
 
 class Entry:
     def __init__(self, name, strategy, build, returns=True, dtypes=REAL, backends=False,
-                 c18_exempt=None, real_ok=None, gseed=False, quick=80, thorough=800, c18=True,
+                 c18_exempt=None, real_ok=None, gseed=False, quick=80, thorough=None, c18=True,
                  c15=True, flags=()):
         self.name = name
         self.strategy = strategy
@@ -111,7 +111,7 @@ class Entry:
         self.real_ok = real_ok
         self.gseed = gseed
         self.quick = quick
-        self.thorough = thorough
+        self.thorough = thorough if thorough is not None else 4 * quick      # per shard; 4 shards -> 16 x quick
         self.c18 = c18 and returns
         self.c15 = c15
         self.flags = tuple(flags)     # "cvg": e["bad"] selects an invalid cvg_criterion (exit by exception)
